@@ -1178,6 +1178,10 @@ func c09Custom(pc *Parent) {
 		pc.R.Counters["first-call-processes"]++
 	}
 
+	// (matrix aid: with LUNARMON_FAILFAST=1 a run that has already found history dependence skips the schedule phase)
+	if os.Getenv("LUNARMON_FAILFAST") == "1" && len(pc.R.Violations) > 0 {
+		return
+	}
 	// C. schedules under the race detector
 	if pc.raceExe == "" {
 		pc.Inconclusive("race-instrumented build missing")
